@@ -125,7 +125,11 @@ Init ==
   /\ blk \in Blocks
   /\ \E enc \in {Encode(blk)} \cup Mutations(Encode(blk)) :
        /\ in = enc
-       /\ osize \in (IF Mutate THEN {Len(Apply(blk)) - 1, Len(Apply(blk)), Len(Apply(blk)) + 1} ELSE {Len(Apply(blk))}) \cap (1..100000)
+       \* announced sizes around the true one; for the unchanged encoding also every size down to 8 below it (a literal run
+       \* or a match that ends a few bytes before the announced end: the word-at-a-time copies must still stay inside)
+       /\ osize \in (IF Mutate THEN (IF enc = Encode(blk) THEN (Len(Apply(blk)) - 8)..(Len(Apply(blk)) + 1)
+                                                          ELSE {Len(Apply(blk)) - 1, Len(Apply(blk)), Len(Apply(blk)) + 1})
+                               ELSE {Len(Apply(blk))}) \cap (1..100000)
   /\ pc = "start" /\ src = 0 /\ dst = 0 /\ left = osize
   /\ lit = 0 /\ litlen = 0 /\ mlen = 0 /\ mdist = 0
   /\ out = [k \in 0..(osize - 1) |-> -1]
